@@ -48,6 +48,15 @@ def run(repo, res):
                   % (r['cls'], r['a'], r['cls'], r['b'], r['b'], r['a']),
                   sample='%s: definitions of %s reach %s' % (r['cls'], r['a'], r['b']))
     res.count('block_pairs', n, floor=100)
+    # ---- continuity of statement blocks (shared with C01-R5): a dropped exit region loses/keeps definitions ----
+    for cls, r in sorted(R.continuity_records(repo).items()):
+        for path, line in sorted(r['dropped'].items()):
+            stmt_block = path.split('.')[-1].split('[')[0] in ('body', 'orelse', 'finalbody')
+            if not stmt_block:
+                continue
+            res.check('C02-R5', '%s %s exit dropped' % (R.method_name(repo, cls), path), False, line[0], line[1],
+                      'the region left current after the statement block %s.%s is discarded: bindings made in regions created inside the block are never associated with later reads (false W01, go-to-definition misses them)' % (cls, path))
+    res.ob('C02-R5', 'statement-block continuity', True, sample='every statement block\'s exit region is consumed by a join, the next block or the scope')
     brecs = R.binder_records(repo)
     for (cls, kind, path), r in sorted(brecs.items()):
         if r['n'] == 0 or r['missing']:
